@@ -134,6 +134,14 @@ OPS = {
     'png_small': lambda: _save(_small(), 'png', border=1, dark=DARK, light=LIGHT),
     'svg_small': lambda: _save(_small(), 'svg', border=1, scale=2.5, light='#eee'),
     'seq_small': lambda: segno.make_sequence('ABCDEFGHIJKLMNOPQRSTUVWXYZ012345', version=1, error='L', mask=4),
+    'eps_float_tuple': lambda: _save(_small(), 'eps', dark=(1.0, 0.0, 0.0), light=(1.0, 1.0, 1.0)),
+    'eps_int_tuple': lambda: _save(_small(), 'eps', dark=(1, 0, 0), light=(1, 1, 1)),
+    'pdf_float_tuple': lambda: _save(_small(), 'pdf', dark=(0.0, 0.0, 1.0), compresslevel=0),
+    'pdf_int_tuple': lambda: _save(_small(), 'pdf', dark=(0, 0, 1), compresslevel=0),
+    'svg_alpha_float': lambda: _save(_small(), 'svg', dark=(255, 0, 0, 1.0)),
+    'svg_alpha_int': lambda: _save(_small(), 'svg', dark=(255, 0, 0, 1)),
+    'make_eci_latin': lambda: segno.make('a' * 17, encoding='iso-8859-1', eci=True, mode='byte', error='L', boost_error=False),
+    'make_eci_utf8': lambda: segno.make('a' * 17, encoding='utf-8', eci=True, mode='byte', error='L', boost_error=False),
     'fail_overflow': lambda: segno.make('1' * 8000),
     'fail_colour': lambda: _save(_shared(), 'png', dark='nope'),
     'fail_mode': lambda: segno.make('abc', mode='numeric'),
